@@ -321,7 +321,14 @@ class DeflatePeer(object):
         """Inflate one client message in wire order; raises zlib.error."""
         if self._d is None or self.client_nct:
             self._d = self._new_d()
-        out = self._d.decompress(payload + b'\x00\x00\xff\xff')
+        # feed the inflater in small pieces: zlib checks match distances
+        # against the negotiated window only for data that is no longer in
+        # the output buffer of the current call, so one big call would
+        # accept back-references beyond 2**client_bits
+        data = payload + b'\x00\x00\xff\xff'
+        parts = []
+        for i in range(0, len(data), 16):
+            parts.append(self._d.decompress(data[i:i + 16]))
         if self._d.unused_data:
             raise zlib.error('trailing data after deflate stream')
-        return out
+        return b''.join(parts)
